@@ -2,6 +2,7 @@ package main
 
 import (
 	"fmt"
+	"math/rand"
 	"net"
 	"strconv"
 	"strings"
@@ -176,4 +177,18 @@ func waitFor(d time.Duration, f func() bool) bool {
 		}
 		time.Sleep(2 * time.Millisecond)
 	}
+}
+
+// lockedRand is a PRNG that goroutines of a driver may share
+type lockedRand struct {
+	mu sync.Mutex
+	r  *rand.Rand
+}
+
+func newLockedRand(seed int64) *lockedRand { return &lockedRand{r: rand.New(rand.NewSource(seed))} }
+
+func (l *lockedRand) Intn(n int) int {
+	l.mu.Lock()
+	defer l.mu.Unlock()
+	return l.r.Intn(n)
 }
